@@ -98,9 +98,50 @@ def run_tsan(pid):
     return info, 0
 
 
+def run_asan(pid):
+    """re-run the quick tier of a process-level check with AddressSanitizer builds of the harness
+    and of the repository's binaries; any ASan report (log file) is a violation witness"""
+    import glob
+    import shutil
+    logdir = os.path.join(vlib.VERIF, "target", "asan-logs", pid)
+    shutil.rmtree(logdir, ignore_errors=True)
+    os.makedirs(logdir)
+    env = dict(os.environ)
+    env["VERIF_SANITIZER"] = "asan"
+    env["VH_NO_EVIDENCE"] = "1"
+    env["ASAN_OPTIONS"] = "log_path=%s/asan:halt_on_error=1:detect_leaks=0" % logdir
+    t0 = time.time()
+    try:
+        p = subprocess.run([os.path.join(vlib.VERIF, "bin", "check"), pid, "quick"], env=env, stdout=subprocess.PIPE, stderr=subprocess.STDOUT, timeout=3600)
+    except subprocess.TimeoutExpired:
+        return {"asan": {"status": "inconclusive", "reason": "timeout"}}, 0
+    out = p.stdout.decode("utf-8", "replace")
+    logs = glob.glob(logdir + "/asan*")
+    info = {"asan": {"status": "clean", "reports": len(logs), "exit": p.returncode, "seconds": round(time.time() - t0, 1), "workload": "quick tier re-run with AddressSanitizer builds"}}
+    if logs:
+        info["asan"]["status"] = "report"
+        violation(pid, "asan", open(logs[0], errors="replace").read())
+        return info, 1
+    if p.returncode == 1:
+        info["asan"]["status"] = "monitor-violation"
+        print(out[-3000:])
+        return info, 1
+    if p.returncode != 0:
+        info["asan"]["status"] = "inconclusive"
+        info["asan"]["tail"] = out[-600:]
+    return info, 0
+
+
+ASAN = {"C16", "C18"}
+
+
 def run(pid, tier):
     rc = 0
     info = {}
+    if pid in ASAN:
+        i, r = run_asan(pid)
+        info.update(i)
+        rc |= r
     if pid in MIRI:
         i, r = run_miri(pid)
         info.update(i)
